@@ -486,10 +486,20 @@ def collect(ctx, which):
             for part in parts:
               long += list(part) + [rng.choice(['CF', 'CR'])]
             chosen.append(tuple(long + ['S2']))
+        # one EXTRA session per (algorithm, shape) reports infinite objectives now and then (seed = 1 mod 4, see run_session);
+        # it is extra because several designers refuse such a history outright, which must not cost the other sessions
+        inf_idx = -1
+        if not algo.get('fixed_sched'):
+          inf_idx = len(chosen)
+          # long enough for the third completed trial (the first infinite one) to be followed by more steps of every kind
+          parts = rng.sample(pool, min(3, len(pool)))
+          extra = []
+          for part in parts:
+            extra += list(part) + ['CF']
+          chosen.append(tuple(extra + ['S2']))
         for k_s, sched in enumerate(chosen):
-          # 0 is a seed like any other; seeds = 1 (mod 4) mark the sessions whose completions report infinite objectives
-          # now and then (run_session): the third session of every (algorithm, shape) and every long one
-          seed = 0 if k_s == 1 else rng.randrange(1, 10 ** 5) * 4 + (1 if k_s == 2 or len(sched) > 12 else 2)
+          # 0 is a seed like any other
+          seed = 0 if k_s == 1 else rng.randrange(1, 10 ** 5) * 4 + (1 if k_s == inf_idx else 2)
           t0 = time.time()
           hist = []
           a, sa, ra = run_session(algo, prob, sched, seed, record=hist)
